@@ -92,6 +92,12 @@ func (d *DB) Apply(ctx context.Context, changes []schema.Change) error {
 	return tx.Commit()
 }
 
+// ApplyNoTx applies the changes through Driver.ApplyChanges directly (the library API, and `schema apply --tx-mode none`):
+// no surrounding transaction, foreign keys stay enabled on the connection unless the plan itself switches them off.
+func (d *DB) ApplyNoTx(ctx context.Context, changes []schema.Change) error {
+	return d.Client.ApplyChanges(ctx, changes, PlanOpts()...)
+}
+
 // Plan returns the statements Atlas plans for the changes.
 func (d *DB) Plan(ctx context.Context, changes []schema.Change) (*migrate.Plan, error) {
 	return d.Client.PlanChanges(ctx, "plan", changes, PlanOpts()...)
